@@ -34,7 +34,7 @@ theorem fail_cfg' (s : St) (e : EErr) : (s.fail e).cfg = s.cfg := by
 
 theorem assignStep_cfg (canon : String) (cut : Bool) (a : ActionRef) (s : St) :
     (assignStep canon cut a s).cfg = s.cfg := by
-  unfold assignStep; split <;> rfl
+  unfold assignStep; (repeat' split) <;> rfl
 
 theorem finishBuiltin_cfg (h : Hooks) (hok : HooksOK h) (canon : String) (a : ActionRef) (s2 : St) :
     (finishBuiltin h canon a s2).1.cfg = s2.cfg := by
@@ -100,7 +100,7 @@ theorem execActionsF_cfg (h : Hooks) (hok : HooksOK h) :
   | succ f ih =>
     intro as evType s
     unfold execActionsF
-    exact foldl_actStep_cfg h hok _ ih false evType as (s, false)
+    exact foldl_actStep_cfg h hok _ (fun as ev s => by rw [endExpansion_cfg]; exact ih as ev s) false evType as (s, false)
 
 /-- **actions never touch the configuration** (user actions reach the interpreter only through the
     documented effects: context, raised events) -/
